@@ -270,7 +270,15 @@ template <typename T> struct Runner {
                 f.close(); f = nix::File::open(c.path("data.nix"), nix::FileMode::ReadWrite); b = f.getBlock("b"); lookUp();
             }
             cur = (int) (i % 3 == 1);          // every third call goes through the second handle
+            State before = st;
             std::string r = step(all[i], (long) i + 1);
+            // C08 speaks about every call the LIBRARY rejects, whatever the specification expected: a call rejected although the
+            // specification accepts it must leave the array as it was before the call
+            if (last && r == "reject" && all[i]["res"] != "reject") {
+                st = before;
+                if (!observe(false)) { result = mismatch("rejected call left a trace:" + all[i]["a"].get<std::string>(), rec["post"], why); result["c08"] = true; result["why"] = why; break; }
+            }
+            if (last && c.opts.value("c08_only", false) && r == all[i]["res"].get<std::string>() && r != "reject") break;      // accepted as predicted: not C08's business
             if (!last) { try { nix::DataArray &o = *h[1 - cur]; nix::NDSize e = o.dataExtent(); (void) o.polynomCoefficients(); (void) o.expansionOrigin();
                                if (e.size() > 0 && e.nelms() > 0 && e.nelms() < 64) { Buf<T> bf; alloc(bf, (size_t) e.nelms()); o.getDataDirect(dt, bf.p(), e, nix::NDSize(e.size(), 0)); } } catch (...) {} }
             if (r != all[i]["res"].get<std::string>()) {
